@@ -239,6 +239,31 @@ def r20_3(c, R, S, M, cmp_):
 
 
 # ------------------------------------------------------------------------------------ R20.6
+def _first_read_vec_width(duke, DC, body, depth):
+    """Width of the count read by the first stream access of `body` if that access is a read_vec with a one-read size closure
+    (private helpers of class_reader the arm delegates to are followed: an extracted `read_xyz(reader, pool)` is the same parse)."""
+    for n in H.walk(body):
+        if n.get("k") not in ("call", "mcall"):
+            continue
+        nm = H.callee_name(n)
+        if nm in DC.READ_WIDTH or nm in ("read_u8_vec", "skip"):
+            return None
+        if nm == "read_vec":
+            args = n.get("args") or []
+            if args and H.peel(args[0]).get("k") == "closure":
+                ws = [DC.READ_WIDTH[H.callee_name(x)][0] for x in H.walk(H.peel(args[0])["body"])
+                      if x.get("k") in ("call", "mcall") and H.callee_name(x) in DC.READ_WIDTH]
+                if len(ws) == 1:
+                    return ws[0]
+            return None
+        key = (n.get("callee") or {}).get("key")
+        callee = duke.by_key.get(key) if key else None
+        if callee is not None and depth > 0 and "class_reader" in callee["path"] and callee.get("body") is not None \
+                and any(H.is_call(x, "read_vec") for x in H.walk(callee["body"])):
+            return _first_read_vec_width(duke, DC, callee["body"], depth - 1)
+    return None
+
+
 def r20_6(F, c, R, M, cmp_):
     from rules import duke_common as DC
     R.rule("R20.6", "for every attribute that duke's class reader parses with a leading read_vec, the width of the count it reads equals "
@@ -256,18 +281,9 @@ def r20_6(F, c, R, M, cmp_):
             for arm in DC.attr_arms(mt):
                 if not arm["name"] or (arm["interest"] and arm["interest"][1]):
                     continue
-                for n in H.walk(arm["body"]):
-                    nm = H.callee_name(n) if n.get("k") in ("call", "mcall") else None
-                    if nm in DC.READ_WIDTH or nm in ("read_u8_vec", "skip"):
-                        break
-                    if nm == "read_vec":
-                        args = n.get("args") or []
-                        if args and H.peel(args[0]).get("k") == "closure":
-                            ws = [DC.READ_WIDTH[H.callee_name(x)][0] for x in H.walk(H.peel(args[0])["body"])
-                                  if x.get("k") in ("call", "mcall") and H.callee_name(x) in DC.READ_WIDTH]
-                            if len(ws) == 1:
-                                widths.setdefault(arm["name"], set()).add(ws[0])
-                        break
+                w = _first_read_vec_width(duke, DC, arm["body"], 2)
+                if w is not None:
+                    widths.setdefault(arm["name"], set()).add(w)
     if not R.anchor("R20.6", "attribute dispatch arms with read_vec in duke::class_reader", len(widths) >= 5):
         return
     for v in m["variants"]:
